@@ -47,7 +47,7 @@ package tso
 //@   ensures [uninit] !old(initialized(t)) ==> physical == 0 && logical == 0 && t.tsoMux.logical == old(t.tsoMux.logical)
 //@   ensures [adds] old(initialized(t)) && old(t.tsoMux.logical) + count <= MaxInt64 ==> t.tsoMux.logical == old(t.tsoMux.logical) + count && physical == ms(old(physNano(t)))
 //@   ensures [raw] old(initialized(t)) && old(t.tsoMux.logical) + count <= MaxInt64 && !(suffixBits > 0 && t.suffix >= 0) ==> logical == t.tsoMux.logical
-//@   ensures [suffixed] old(initialized(t)) && old(t.tsoMux.logical) >= 0 && old(t.tsoMux.logical) + count < 1099511627776 && suffixBits > 0 && suffixBits <= 4 && t.suffix >= 0 && t.suffix < 16 ==> logical == t.tsoMux.logical * pow2(suffixBits) + t.suffix
+//@   ensures [suffixed] old(initialized(t)) && old(t.tsoMux.logical) >= 0 && old(t.tsoMux.logical) + count < 8589934592 && suffixBits > 0 && suffixBits <= 29 && t.suffix >= 0 && t.suffix <= 2147483647 ==> logical == t.tsoMux.logical * pow2(suffixBits) + t.suffix
 //@   ensures [physical-kept] t.tsoMux.physical == old(t.tsoMux.physical)
 //@   option event generateTSO
 //@   modifies t.tsoMux.logical, t.tsoMux.updateTime, ghost evres
@@ -105,6 +105,8 @@ package tso
 //@   ensures [forward] t.tsoMux.physical != old(t.tsoMux.physical) || t.tsoMux.logical != old(t.tsoMux.logical) ==> ms(physNano(t)) > ms(old(physNano(t))) || (ms(physNano(t)) == ms(old(physNano(t))) && t.tsoMux.logical > old(t.tsoMux.logical))
 //@   ensures [checked] t.tsoMux.physical != old(t.tsoMux.physical) || t.tsoMux.logical != old(t.tsoMux.logical) ==> lastok("Check") && last("Check") > old(evclock[0])
 //@   ensures [logical-range] t.tsoMux.physical != old(t.tsoMux.physical) || t.tsoMux.logical != old(t.tsoMux.logical) ==> 0 <= t.tsoMux.logical && t.tsoMux.logical < 262144
+//@   ensures [adopted] t.tsoMux.physical != old(t.tsoMux.physical) || t.tsoMux.logical != old(t.tsoMux.logical) ==> physNano(t) == (tso / 262144) * 1000000 && t.tsoMux.logical == tso % 262144
+//@   ensures [kept-only-when-not-behind] result == nil && old(physNano(t)) >= 0 && old(t.tsoMux.logical) >= 0 && tso < 18446744073709551616 / 4 && t.tsoMux.physical == old(t.tsoMux.physical) && t.tsoMux.logical == old(t.tsoMux.logical) ==> (tso / 262144) < ms(physNano(t)) || ((tso / 262144) == ms(physNano(t)) && tso % 262144 <= t.tsoMux.logical)
 //@   modifies t.tsoMux.physical, t.tsoMux.logical, t.tsoMux.updateTime, t.lastSavedTime.v, ghost evres, ghost etcdhas, ghost etcdval, ghost etcdlease, ghost etcdn, ghost etcdhas0, ghost etcdval0, ghost etcdlease0
 
 // C01/C02: a new holder starts strictly above the largest stored window it loaded and persists its own window first.
@@ -117,3 +119,82 @@ package tso
 //@   at saveTimestamp 1 assert [persist-first] unixnano(save) == unixnano(next) + t.saveInterval
 //@   at setTSOPhysical 1 assert [adopt-next] lastok("saveTimestamp") || true
 //@   modifies *
+
+// ================= C05: local and global timestamps are mutually consistent =================
+// The suffix arithmetic: with 0 <= suffix < 2^bits the differentiated logical value is raw*2^bits + suffix, so
+// equal raw values with different suffixes differ and the order of raw values is kept (lemma suffix_order).
+//@ func (*timestampOracle).differentiateLogical
+//@   props C05
+//@   ensures [shifted] 0 <= suffixBits && suffixBits <= 29 && 0 <= rawLogical && rawLogical < 8589934592 && 0 - 2147483648 <= t.suffix && t.suffix <= 2147483647 ==> result == rawLogical * pow2(suffixBits) + t.suffix
+//@   modifies nothing
+
+//@ lemma suffix_order (r1 int, s1 int, r2 int, s2 int, bits int)
+//@   props C05
+//@   hyp 0 <= bits && bits <= 30 && 0 <= s1 && s1 < pow2(bits) && 0 <= s2 && s2 < pow2(bits) && 0 <= r1 && 0 <= r2
+//@   concl [never-equal] s1 != s2 ==> r1 * pow2(bits) + s1 != r2 * pow2(bits) + s2
+//@   concl [order-kept] r1 < r2 ==> r1 * pow2(bits) + s1 < r2 * pow2(bits) + s2
+//@   concl [order-reflected] r1 * pow2(bits) + s1 < r2 * pow2(bits) + s2 ==> r1 <= r2
+
+// precheckLogical: true only for an initialised physical part and a logical part that still fits 18 bits after the shift.
+//@ func (*GlobalTSOAllocator).precheckLogical
+//@   props C05
+//@   requires gta != nil && gta.timestampOracle != nil && maxTSO != nil && 0 <= suffixBits && suffixBits <= 29 && 0 <= maxTSO.Logical && maxTSO.Logical < 8589934592 && 0 <= gta.timestampOracle.suffix && gta.timestampOracle.suffix <= 2147483647
+//@   ensures [fits] result ==> maxTSO.Physical != 0 && maxTSO.Logical * pow2(suffixBits) + gta.timestampOracle.suffix < 262144
+//@   ensures [unchanged] maxTSO.Physical == old(maxTSO.Physical) && maxTSO.Logical == old(maxTSO.Logical)
+//@   modifies nothing
+
+// The RPC fan-out to the local allocator leaders (goroutines, channels, gRPC) is not verified; assumed: it only
+// ever raises *maxTSO (to the largest local timestamp reported) and leaves it alone in the write phase.
+//@ func (*GlobalTSOAllocator).SyncMaxTS
+//@   assumed
+//@   option event SyncMaxTS
+//@   requires maxTSO != nil
+//@   ensures [only-raised] tsGE(maxTSO, old(maxTSO)) || (maxTSO.Physical == old(maxTSO.Physical) && maxTSO.Logical == old(maxTSO.Logical))
+//@   ensures [write-phase-keeps] skipCheck ==> maxTSO.Physical == old(maxTSO.Physical) && maxTSO.Logical == old(maxTSO.Logical)
+//@   ensures [remote-counters-bounded] (old(0 <= maxTSO.Logical && maxTSO.Logical < 4294967296) ==> 0 <= maxTSO.Logical && maxTSO.Logical < 4294967296) && maxTSO.Physical < 4611686018427387904
+//@   modifies maxTSO.*
+//@ func (*AllocatorManager).GetClusterDCLocations
+//@   assumed
+//@   modifies nothing
+//@ func (*AllocatorManager).GetSuffixBits
+//@   assumed
+//@   ensures 0 <= result && result <= 29
+//@   modifies nothing
+//@ opaque (*GlobalTSOAllocator).getSyncRTT
+
+// estimateMaxTS: an estimate is only handed out after the overflow pre-check.
+//@ func (*GlobalTSOAllocator).estimateMaxTS
+//@   props C05
+//@   requires gta != nil && gta.timestampOracle != nil && gta.timestampOracle.tsoMux != nil && count > 0 && 0 <= suffixBits && suffixBits <= 29 && 0 <= gta.timestampOracle.suffix && gta.timestampOracle.suffix <= 2147483647 && 0 <= gta.timestampOracle.tsoMux.logical && gta.timestampOracle.tsoMux.logical < 2147483648
+//@   ensures [prechecked] r2 == nil && !r1 ==> r0 != nil && allocated(r0) && r0.Physical != 0 && 0 <= r0.Logical && r0.Logical < 262144 && r0.Logical * pow2(suffixBits) + gta.timestampOracle.suffix < 262144
+//@   modifies gta.timestampOracle.tsoMux.logical, gta.timestampOracle.tsoMux.updateTime, ghost evres
+
+// GenerateTSO (global, with dc-locations): what is sent in the write phase is strictly above the largest local
+// timestamp collected in the check phase; what is returned is the synced value, differentiated with the suffix
+// width that was pre-checked, after the allocator's own memory was raised and leadership re-checked.
+//@ func (*GlobalTSOAllocator).GenerateTSO
+//@   props C05
+//@   requires gta != nil && gta.timestampOracle != nil && gta.allocatorManager != nil && gta.leadership != nil && leaseTyped(gta.leadership) && wfOracle(gta.timestampOracle) && windowInv(gta.timestampOracle) && count > 0 && 0 <= gta.timestampOracle.suffix && gta.timestampOracle.suffix <= 2147483647
+//@   loop 1 assume 0 <= gta.timestampOracle.tsoMux.logical && gta.timestampOracle.tsoMux.logical < 2147483648 && wfOracle(gta.timestampOracle) && windowInv(gta.timestampOracle)
+//@   loop 2 invariant [write-phase-value-above-collected] skipCheck ==> estimatedMaxTSO.Physical > globalTSOResp.Physical || (estimatedMaxTSO.Physical == globalTSOResp.Physical && estimatedMaxTSO.Logical > globalTSOResp.Logical)
+//@   loop 2 assume estimatedMaxTSO.Physical < 4611686018427387904
+//@   loop 2 invariant estimatedMaxTSO != nil && allocated(estimatedMaxTSO) && 0 <= suffixBits && suffixBits <= 29 && 0 <= estimatedMaxTSO.Logical && estimatedMaxTSO.Logical < 4294967296
+//@   at SyncMaxTS 1 assert [sends-a-copy-of-the-estimate] arg2.Physical == estimatedMaxTSO.Physical && arg2.Logical == estimatedMaxTSO.Logical && arg3 == skipCheck
+//@   at differentiateLogical 1 assert [differentiates-the-synced-value] arg0 == globalTSOResp.Logical && arg1 == suffixBits && lastok("Check") && last("Check") > last("SyncMaxTS")
+//@   modifies *
+
+// A local allocator's current timestamp is its memory (milliseconds, logical); WriteTSO leaves the memory at or
+// above the proposed maximum whenever it reports success.
+//@ pure memGE(t *timestampOracle, ts *pdpb.Timestamp) = ms(physNano(t)) > tsP(ts) || (ms(physNano(t)) == tsP(ts) && t.tsoMux.logical >= tsL(ts))
+//@ func (*LocalTSOAllocator).GetCurrentTSO
+//@   props C05
+//@   requires lta != nil && lta.timestampOracle != nil && lta.timestampOracle.tsoMux != nil
+//@   ensures [reads-memory] r1 == nil ==> r0 != nil && allocated(r0) && initialized(lta.timestampOracle) && r0.Physical == ms(physNano(lta.timestampOracle)) && r0.Logical == lta.timestampOracle.tsoMux.logical
+//@   modifies nothing
+//@ func (*LocalTSOAllocator).WriteTSO
+//@   props C05
+//@   requires lta != nil && lta.timestampOracle != nil && wfOracle(lta.timestampOracle) && windowInv(lta.timestampOracle) && (lta.leadership == nil || leaseTyped(lta.leadership)) && maxTS != nil
+//@   requires 0 <= maxTS.Physical && maxTS.Physical < 8796093022208 && 0 <= maxTS.Logical && maxTS.Logical < 262144 && (initialized(lta.timestampOracle) ==> physNano(lta.timestampOracle) >= 0 && lta.timestampOracle.tsoMux.logical >= 0)
+//@   ensures [at-or-above-afterwards] result == nil ==> memGE(lta.timestampOracle, maxTS)
+//@   ensures [never-lowered] old(initialized(lta.timestampOracle)) ==> ms(physNano(lta.timestampOracle)) > old(ms(physNano(lta.timestampOracle))) || (ms(physNano(lta.timestampOracle)) == old(ms(physNano(lta.timestampOracle))) && lta.timestampOracle.tsoMux.logical >= old(lta.timestampOracle.tsoMux.logical))
+//@   modifies lta.timestampOracle.tsoMux.physical, lta.timestampOracle.tsoMux.logical, lta.timestampOracle.tsoMux.updateTime, lta.timestampOracle.lastSavedTime.v, ghost evres, ghost etcdhas, ghost etcdval, ghost etcdlease, ghost etcdn, ghost etcdhas0, ghost etcdval0, ghost etcdlease0
